@@ -199,7 +199,7 @@ func errClass(err error) string {
 
 func c08Scenarios(thorough bool) []c08Scenario {
 	var out []c08Scenario
-	pols := []string{"lru", "lfu", "slru"}
+	pols := []string{"lru", "lfu", "slru", "tinylfu"}
 	for _, pol := range pols {
 		out = append(out, c08Scenario{name: "H1-" + pol, spec: SpecShared(pol, 1), parts: []string{"A", "B"},
 			threads: [][]string{{"dec:A"}, {"dec:B"}}})
@@ -238,8 +238,14 @@ func CheckC08(r *Report) {
 	if r.Thorough() {
 		bounds = []int{0, 1, 2, 3}
 	}
+	byName := map[string]c08Scenario{}
+	var names []string
 	for _, sc := range c08Scenarios(r.Thorough()) {
-		sc := sc
+		byName[sc.name] = sc
+		names = append(names, sc.name)
+	}
+	r.RunScenarios(names, func(r *Report, name string) {
+		sc := byName[name]
 		var last *explore.Result
 		completed := -1
 		t0 := time.Now()
@@ -255,5 +261,5 @@ func CheckC08(r *Report) {
 			}
 		}
 		r.AddExplore(last, fmt.Sprintf("preemption bound completed=%d", completed), time.Since(t0).Seconds())
-	}
+	})
 }
